@@ -125,13 +125,15 @@ func init() {
 			{Pattern: "strconv.ParseInt", Levels: "SF"}, {Pattern: "strconv.ParseUint", Levels: "SF"},
 			{Pattern: "strconv.LenInt", Levels: "SF"}, {Pattern: "strconv.LenUint", Levels: "SF"}, {Pattern: "strconv.AppendInt", Levels: "SF"},
 			{Pattern: "strconv.ParseFloat", Levels: "SF"},
+			{Pattern: "strconv.AppendNumber", Levels: "SF"}, {Pattern: "strconv.ParseNumber", Levels: "S"},
+			{Pattern: "strconv.AppendDecimal", Levels: "SF"},
 		},
 		NotDecided: []string{
 			"ParseFloat/ParseDecimal/AppendFloat values and accuracy (floating point is outside the technique; for ParseFloat the number of bytes consumed is decided: sign, digits with at most one dot, optional exponent)",
-			"AppendDecimal integer rendering: contract written (exact sizing, sign byte never overwritten) but 3 of 46 obligations need more than the quick time-out (20-way digit-count x 17-way decimals case analysis); not claimed. The sign defect found there was repaired (KNOWN_FINDINGS.txt)",
-			"AppendNumber/ParseNumber round trip (group-size arithmetic with symbolic divisor; the sizing defect found by reading the obligation was repaired, KNOWN_FINDINGS.txt)",
+			"AppendDecimal: the float scaling and rounding are abstracted (num := int64(f) is an arbitrary integer within the range the guard added by fix fef7a12 establishes; that range is the one assumption of the proof, float comparisons not being modelled); decided for every such integer: exact buffer sizing, all writes in bounds, destination prefix preserved, sign byte present for negative numbers and never overwritten, every appended byte a digit, the dot or the leading minus. Numbers of 9e18 and above go to AppendFloat, whose frame is assumed",
+			"AppendNumber: decided for group sizes up to 6 (the property's own domain; the group arithmetic divides by the group size) and any separator width: exact buffer sizing (length formula), all writes in bounds, utf8.EncodeRune never called with too short a slice, destination prefix preserved, sign byte. Not decided: the digit values and the ParseNumber round trip (ParseNumber: index safety and termination only)",
 		},
-		Technique: "deductive verification: ParseInt/ParseUint == decimal value of the longest digit prefix with exact overflow behaviour (recursive spec digitsVal, lemmas by induction), LenInt/LenUint == mathematical digit count, AppendInt == prefix-preserving decimal expansion (quantified digit postcondition); VCs discharged by z3/cvc5",
+		Technique: "deductive verification: ParseInt/ParseUint == decimal value of the longest digit prefix with exact overflow behaviour (recursive spec digitsVal, lemmas by induction), LenInt/LenUint == mathematical digit count, AppendInt == prefix-preserving decimal expansion (quantified digit postcondition), AppendNumber/AppendDecimal exact sizing by counting invariants over an opaque digit-count function with lemmas proved from its definition; VCs discharged by z3/cvc5",
 	})
 	registerProp(&PropSpec{
 		ID: "C19", Title: "BinaryReader/Writer round-trip and honour io contracts on every backend",
